@@ -37,6 +37,11 @@ TabOf(e) == LET pm == [pf \in {e.pmap[i].p : i \in DOMAIN e.pmap} |->
                 reg |-> {r \in UNION {{<<pm[pf][i], pf>> : i \in DOMAIN pm[pf]} : pf \in DOMAIN pm} :
                            r[1] \notin Range(e.glob)}]
 
+(* a table operation of the code, judged on the table it left: "evicted" - someone who asked for a prefix (or for  *)
+(* everything) and has not left is no longer among the listeners a datagram with that prefix is handed to (what the *)
+(* statement demands: the other overlays still get the datagram); "table" - any other difference from the spec's table *)
+TabReason(T, e) == IF ~Serves(TabOf(e), T.reg, T.gl) THEN "evicted" ELSE IF ~TabMatches(T, e) THEN "table" ELSE ""
+
 TunOf(e) == [circuits |-> Range(e.circuits), exits |-> Range(e.exits),
              relays |-> [c \in {e.relays[i].cid : i \in DOMAIN e.relays} |->
                            LET r == e.relays[CHOOSE i \in DOMAIN e.relays : e.relays[i].cid = c]
@@ -71,12 +76,9 @@ Verdict(reason, exact) ==
 TraceNext ==
   /\ l <= Len(Ev)
   /\ LET e == Ev[l] IN
-       CASE e.op = "add"  -> AddListener(e.l) /\ LET ok == TabMatches(AddL(tab, e.l), e) IN
-                                                   Verdict(IF ok THEN "" ELSE "table", ok)
-         [] e.op = "addp" -> AddPrefixListener(e.l, e.p) /\ LET ok == TabMatches(AddP(tab, e.l, e.p), e) IN
-                                                              Verdict(IF ok THEN "" ELSE "table", ok)
-         [] e.op = "rem"  -> RemoveListener(e.l) /\ LET ok == TabMatches(RemL(tab, e.l), e) IN
-                                                      Verdict(IF ok THEN "" ELSE "table", ok)
+       CASE e.op = "add"  -> AddListener(e.l) /\ LET why == TabReason(AddL(tab, e.l), e) IN Verdict(why, why = "")
+         [] e.op = "addp" -> AddPrefixListener(e.l, e.p) /\ LET why == TabReason(AddP(tab, e.l, e.p), e) IN Verdict(why, why = "")
+         [] e.op = "rem"  -> RemoveListener(e.l) /\ LET why == TabReason(RemL(tab, e.l), e) IN Verdict(why, why = "")
          [] e.op = "tabset" -> /\ tab' = TabOf(e) /\ UNCHANGED <<desc, open, tun, last, nops, nrecv>>
                                /\ Verdict("", TRUE)
          [] e.op = "open" -> SetOpen(e.b) /\ Verdict("", TRUE)
